@@ -33,7 +33,13 @@ RULE = (
     "checked against `brewFull` / `TailSpecG` (ops fbfull / fbtailgspec / fbreset); the PEP estimator of "
     "assign_confidence is replaced by a recorder and its input must be the higher-is-better ranking score of the rows of "
     "every level file (op fbpep); a quarter of the runs use a decision_function estimator (brew calibrates every fold's "
-    "scores per collection before the comparison; recomputed exactly from the C01 labels)"
+    "scores per collection before the comparison; recomputed exactly from the C01 labels); third extension: the informative "
+    "feature is stored as uint16 / int16 (dense ranks, best value = smallest value of the type) / uint32 / uint64 / int32 / "
+    "float64 / int64 shifted by 2**24, +-2**30, 2**40, -2**44 (Parquet keeps the type, text gives int64): the ranking column of "
+    "assign_confidence is compared with `entryRankTyped` / `brewThenRank` (ops fbrank / fbthenrank), the target PSMs accepted "
+    "at test_fdr in targets.psms with the C01 count on the ranking scores of the PSM-level winners, feat_pass/desc of "
+    "Model(direction=...) with `dirStartCol` on the stored training column (op fbdirstartcol), and `roundBits` with numpy's "
+    "integer -> float32 / float64 conversion (op fbcast)"
 )
 THR = 0.25
 
@@ -75,6 +81,20 @@ def gen_case(rng):
     c["api"] = rng.choice(["proba", "proba", "proba", "decision"])
     if c["api"] == "decision" and c["est"] != "good" and rng.random() < 0.5:
         c["est"] = "good"                                     # (calibration only happens when every fold model is trained)
+    # assign_confidence(scores=None, descs=<given by the caller>): the best feature is found, the caller's direction is used
+    c["entry_descs"] = rng.choice([None, None, "up", "down"])
+    # --- third extension: how the informative feature is stored
+    c["feat_dtype"] = rng.choice([None] * 6 + ["uint16rank", "uint16rank", "int16rank", "uint32", "uint64", "int32", "float64"])
+    # (the values spread over about 2**22: beyond 2**40 single precision merges most of them)
+    c["feat_off"] = rng.choice([0] * 6 + [1 << 24, 1 << 30, -(1 << 30), 1 << 40, -(1 << 44)]) if c["feat_dtype"] is None else 0
+    if c["direction"] == 0 and c["feat_dtype"] is None and c["feat_off"] == 0 and rng.random() < 0.5:
+        c["feat_off"] = rng.choice([1 << 30, 1 << 40, -(1 << 44)])   # the named start feature beyond float32's 24 digits
+    c["cast_probe"] = [rng.choice([1, -1]) * (rng.choice([1 << 24, 1 << 25, 1 << 30, 1 << 53, 1 << 54, 1 << 62, rng.randrange(1 << 63)])
+                                              + rng.randrange(-4, 5)) for _ in range(6)]
+    if c["feat_dtype"] in ("uint16rank", "int16rank", "uint32", "uint64") and rng.random() < 0.5:
+        c["best_low"] = True                                   # best value = smallest value of the type (0 / -32768)
+    if c["follow"]:
+        c["feat_dtype"], c["feat_off"] = None, 0
     if c["follow"]:
         c["api"] = "proba"
         # the follow-ups need trained fold models
@@ -112,6 +132,47 @@ def gen_case_base(rng):
                       dict(train_fdr=0.5, test_fdr=0.01, signal=1.0), dict(train_fdr=0.5, test_fdr=0.03, signal=1.5),
                       dict(train_fdr=0.25, test_fdr=0.0625)]),
     )
+
+
+def store_feature(col, kind, off):
+    """the informative feature in another stored number type, same order, still free of ties: dense ranks 0..n-1 as uint16
+    (so a lower-is-better feature has best value 0), dense ranks from the smallest int16 value, the values shifted to start
+    at 0 as uint32 / uint64, as they are as int32 / float64, or int64 shifted by `off` (beyond float32's 24 digits)"""
+    v = np.asarray(col, dtype=np.int64)
+    if kind == "uint16rank":
+        return pd_series(np.argsort(np.argsort(v, kind="stable"), kind="stable").astype(np.uint16), col)
+    if kind == "int16rank":
+        return pd_series((np.argsort(np.argsort(v, kind="stable"), kind="stable") - 32768).astype(np.int16), col)
+    if kind == "uint32":
+        return pd_series((v - v.min()).astype(np.uint32), col)
+    if kind == "uint64":
+        return pd_series((v - v.min()).astype(np.uint64), col)
+    if kind == "int32":
+        return pd_series(v.astype(np.int32), col)
+    if kind == "float64":
+        return pd_series(v.astype(np.float64), col)
+    return pd_series(v + int(off), col)
+
+
+def pd_series(arr, like):
+    import pandas as pd
+
+    return pd.Series(arr, index=like.index)
+
+
+def cast_probe_check(chk, case):
+    """`roundBits` (the model of numpy's integer -> binary32 / binary64 conversion that `tdc` and the entry of
+    assign_confidence apply to integer score arrays) against numpy itself"""
+    xs = case.get("cast_probe")
+    if not xs or case["data_seed"] % 4:
+        return
+    arr = np.asarray(xs, dtype=np.int64)
+    resp = common.driver_batch([req("fbcast", 24, xs), req("fbcast", 53, xs)])
+    for r_, got in ((resp[0], arr.astype(np.float32)), (resp[1], arr.astype(np.float64))):
+        model = [int(x) for x in dec(r_)]
+        impl = [int(x) for x in got.astype(object)]
+        if model != impl:
+            chk.corr_break("fbcast", dict(case=case, probe=xs, model=model, impl=impl))
 
 
 def raw_labels(df):
@@ -189,12 +250,14 @@ def entry_check(chk, case, d, dss, tabs, feature_cols):
     (feature, direction) pair that accepts the most targets at eval_fdr over all features and both directions;
     model: `collBest` (first maximum, higher-is-better tried first)."""
     thr = Fraction(case["entry_fdr"])
+    given = None if not case.get("entry_descs") else [case["entry_descs"] == "up"] * len(dss)
+    chk.count("entry_descs", str(case.get("entry_descs")))
     out = d / "out_entry"
     out.mkdir()
     try:
         with P.pep_kernel(stub=True):
             P.run_assign_confidence(dss, None, out, eval_fdr=float(thr), prefixes=[f"e{k}" for k in range(len(dss))],
-                                    decoys=True)
+                                    decoys=True, **({} if given is None else dict(descs=list(given))))
     except Exception as e:
         msg = f"{type(e).__name__}: {e}"
         if isinstance(e, RuntimeError) and "No PSMs found" in msg:
@@ -259,6 +322,33 @@ def entry_check(chk, case, d, dss, tabs, feature_cols):
                     ranked_by=[dict(feature=feature_cols[j], desc=de, accepts=n) for j, de, n in cands])
         m_rank, m_desc, m_i, m_n = model[k]
         chk.count("entry_desc", m_desc)
+        if given is not None:
+            # the caller's directions win (`entryDescs false (some descs) found n = descs`): the collection must be ranked by
+            # a best feature (largest count in one of its directions) in the direction the caller gave
+            md = dec(common.driver_batch([req("fbentrydescs", False, [bool(x) for x in given],
+                                              [m[1] == "T" for m in model], len(tabs))])[0])
+            if [x == "T" for x in md] != [bool(x) for x in given]:
+                chk.corr_break("fbentrydescs", dict(info, model=md))
+            ok = [(j, de, n) for j, de, n in cands
+                  if de == bool(given[k]) and max(counts[2 * j], counts[2 * j + 1]) == best_n]
+            if not ok:
+                chk.spec_violation("confidence-entry-given-descs",
+                                   dict(info, given=bool(given[k]),
+                                        clause=f"assign_confidence(scores=None, descs=[{bool(given[k])}]): collection {k} is not ranked "
+                                               "by a best feature in the direction the caller gave"))
+                return
+            j, de, n = ok[0]
+            rank = df[feature_cols[j]].values.astype(float) * (1.0 if de else -1.0)
+            best = {}
+            for i, s_ in enumerate(df["ScanNr"]):
+                if s_ not in best or rank[i] > rank[best[s_]]:
+                    best[s_] = i
+            if sorted(ids) != sorted(best.values()):
+                chk.spec_violation("confidence-entry-given-descs",
+                                   dict(info, given=bool(given[k]), clause="PSM-level winners are not the best-ranked PSM per "
+                                                                            "spectrum in the direction the caller gave"))
+                return
+            continue
         if not cands:
             chk.spec_violation("confidence-best-feature-direction",
                                dict(info, clause="assign_confidence(scores=None): the reported scores are no feature column in any direction"))
@@ -272,7 +362,7 @@ def entry_check(chk, case, d, dss, tabs, feature_cols):
                                                  "by find_best_feature is not honoured)"))
             return
         j, de, n = [c for c in cands if c[2] == best_n][0]
-        rank = (df[feature_cols[j]].values if de else -df[feature_cols[j]].values).astype(float)
+        rank = df[feature_cols[j]].values.astype(float) * (1.0 if de else -1.0)
         best = {}
         for i, s_ in enumerate(df["ScanNr"]):
             if s_ not in best or rank[i] > rank[best[s_]]:
@@ -651,6 +741,7 @@ def run_case(chk, case):
     import mokapot
 
     r = random.Random(case["data_seed"])
+    cast_probe_check(chk, case)
     with P.workdir() as d:
         tabs, dss = [], []
         off = 0
@@ -669,6 +760,8 @@ def run_case(chk, case):
             df["SpecId"] = [f"f{k}_{i}" for i in range(len(df))]
             if case["best_low"]:
                 df["feat0"] = -df["feat0"]
+            df["feat0"] = store_feature(df["feat0"], case.get("feat_dtype"), case.get("feat_off", 0))
+            chk.count("feature_dtype", f"{df['feat0'].dtype}/{case['fmt']}" + (f"+{case['feat_off']}" if case.get("feat_off") else ""))
             if case.get("two_good"):
                 # name the second informative feature so that it sorts before the first one
                 df = df.rename(columns={"feat1": "afeat"})
@@ -745,8 +838,13 @@ def run_case(chk, case):
             if direction is not None:
                 # the start feature is given: feat_pass = the better of ITS two directions, desc wins ties (dirStart)
                 j = feature_cols.index(direction)
-                exp = dec(common.driver_batch([req("fbdirstart", cd[j], ca[j])])[0])
+                exp, exp_col = [dec(r_) for r_ in common.driver_batch([
+                    req("fbdirstart", cd[j], ca[j]),
+                    req("fbdirstartcol", Fraction(case.get("train_fdr", THR)), [allrows[i][1] for i in ids],
+                        [allrows[i][0][direction] for i in ids])])]
                 got = (ms[f][1], ms[f][0], ms[f][2])
+                if exp_col != exp:
+                    chk.corr_break("fbdirstartcol", dict(case=case, fold=f, model_col=exp_col, model_counts=exp))
                 if got[0] != j or got[1] != max(cd[j], ca[j]) or (cd[j] if got[2] else ca[j]) != got[1]:
                     chk.spec_violation("direction-start-not-that-feature",
                                        dict(case=case, fold=f, direction=direction,
@@ -845,6 +943,13 @@ def run_case(chk, case):
         # per-fold scores
         colls_full = [[c_[0], c_[1], [] if ens else c_[2]] for c_ in colls]
         full_reqs = [req("fbfull", False, ens, ms, thr_t, colls_full, [], model_scores if ens else [])]
+        # (third extension) the ranking columns of assign_confidence: `brewThenRank` on the model's own return value and
+        # `entryRankTyped` on the returned columns — only for columns whose integers ARE the returned values (the integers
+        # standing for an ensemble mean / calibrated scores are order-preserving representatives, not stored values)
+        stored_ints = shaped and not ((ens or api == "decision") and is_model)
+        extra_reqs = [req("fbthenrank", False, ens, ms, thr_t, colls_full, [], model_scores if ens else [])]
+        if stored_ints and len(descs) == len(tabs):
+            extra_reqs += [req("fbrank", bool(descs[k]), ret_int[k]) for k in range(len(tabs))]
         if shaped:
             full_reqs.append(req("fbtailgspec", ms, thr_t, colls_full, model_scores, [ret_int, [bool(x) for x in descs]]))
         if not ens:
@@ -853,7 +958,10 @@ def run_case(chk, case):
                 tail_reqs.append(req("fbtailspec", ms, thr_t, colls, [ret_int, [bool(x) for x in descs]]))
         else:
             tail_reqs = []                                          # `brewTail` has no ensemble source
-        tail_resp = common.driver_batch(tail_reqs + full_reqs)
+        tail_resp = common.driver_batch(tail_reqs + full_reqs + extra_reqs)
+        extra_resp = tail_resp[len(tail_reqs) + len(full_reqs):]
+        tail_resp = tail_resp[:len(tail_reqs) + len(full_reqs)]
+        then_rank = dec(extra_resp[0])
         full_resp = tail_resp[len(tail_reqs):]
         full_model = dec(full_resp[0])
         full_spec_ok = (dec(full_resp[1]) == "T") if shaped else None
@@ -949,11 +1057,26 @@ def run_case(chk, case):
                                dict(case=case, error=f"{type(e).__name__}: {e}"[:300],
                                     clause="assign_confidence raised on brew's return value"))
             return
+        int_reps = ret_int if shaped else None                     # integers in the order of the returned scores
+        rank_model = [[int(x) for x in dec(r_)] for r_ in extra_resp[1:]] if len(extra_resp) == 1 + len(tabs) else None
+        count_reqs, count_real = [], []
         for k, (df, ret) in enumerate(zip(tabs, returned)):
             desc = bool(descs[k])
             t = P.read_result(out / f"p{k}.targets.psms"); dd = P.read_result(out / f"p{k}.decoys.psms")
             byid = {sid: i for i, sid in enumerate(df["SpecId"])}
             rank = ret if desc else -ret
+            stored_kind = np.asarray(scores[k]).dtype.kind
+            chk.count("returned_dtype", f"{np.asarray(scores[k]).dtype}:{'desc' if desc else 'asc'}")
+            if rank_model is not None and stored_ints:
+                # model: `entryRankTyped` (conversion to binary64, then the negation) on the integers of the returned column
+                want = int_reps[k] if desc else [-x for x in int_reps[k]]
+                if rank_model[k] != want:
+                    chk.corr_break("fbrank", dict(case=case, collection=k, desc=desc))
+                if (isinstance(then_rank, list) and len(then_rank) == len(tabs) and full_model != "reject-label"
+                        and [[int(x) for x in col] for col in full_model[0]] == int_reps
+                        and [x == "T" for x in full_model[1]] == [bool(x) for x in descs]
+                        and [int(x) for x in then_rank[k]] != want):
+                    chk.corr_break("fbthenrank", dict(case=case, collection=k, desc=desc))
             best = {}
             for i, s in enumerate(df["ScanNr"]):
                 if s not in best or rank[i] > rank[best[s]]:
@@ -970,8 +1093,31 @@ def run_case(chk, case):
                 if not same_scores(np.asarray(f["score"], dtype=float), np.array(rr)):
                     bad = bad or "reported score is not the (sign-corrected) returned score of the row"
             if bad:
-                chk.spec_violation("direction", dict(case=case, clause=bad, desc=desc))
+                chk.spec_violation("integer-score-ranking" if stored_kind in "iub" else "direction",
+                                   dict(case=case, clause=bad + (f" (the scores were handed over as a {np.asarray(scores[k]).dtype} "
+                                                                 "array)" if stored_kind in "iub" else ""), desc=desc,
+                                        returned_dtype=str(np.asarray(scores[k]).dtype)))
                 return
+            # accepted target PSMs at test_fdr in the result file = C01 count on the ranking scores of the PSM-level winners
+            if int_reps is not None and float(thr_t) in (0.5, 0.25, 0.125, 0.0625):
+                rk = int_reps[k] if desc else [-x for x in int_reps[k]]
+                targets = [l in (1, True) for l in raw_labels(df)]
+                count_reqs.append(req("labels", True, thr_t, [[rk[i], targets[i]] for i in got]))
+                count_real.append((k, int((np.asarray(t["q-value"], dtype=float) <= float(thr_t)).sum()), desc,
+                                   str(np.asarray(scores[k]).dtype)))
+        if count_reqs:
+            for (k, real_n, desc, dt), r_ in zip(count_real, common.driver_batch(count_reqs)):
+                want_n = sum(1 for x in dec(r_) if x == "1")
+                chk.count("accepted_count_checked", "desc" if desc else "asc")
+                if real_n != want_n:
+                    chk.spec_violation("confidence-accepted-count",
+                                       dict(case=case, collection=k, desc=desc, returned_dtype=dt, accepted=real_n, expected=want_n,
+                                            clause=f"assign_confidence(descs=[{desc}]) on a {dt} score array: targets.psms holds "
+                                                   f"{real_n} target PSMs with q<={thr_t}; the ranking scores of the PSM-level "
+                                                   f"winners (value if higher-is-better else -value) accept {want_n} by the "
+                                                   "defining formula (the q-values do not belong to the returned scores in the "
+                                                   "returned direction)"))
+                    return
         if not pep_input_check(chk, case, pep_calls, out, tabs, returned, None if ((ens or api == "decision") and is_model) else ret_int, descs):
             return
         if case.get("entry_fdr") is not None:
@@ -1001,6 +1147,16 @@ def main(chk, args):
     build = common.build_and_audit("C07")
     if not build.driver_ok:
         chk.finish(build, RULE)
+    # hand-picked cases first (stored number types of the informative feature; they draw nothing from chk.rng)
+    corpus = common.HARNESS / "corpus" / "C07.json" if hasattr(common, "HARNESS") else None
+    if corpus is None:
+        from pathlib import Path
+        corpus = Path(__file__).resolve().parent / "corpus" / "C07.json"
+    if corpus.exists():
+        for c in json.loads(corpus.read_text()):
+            c = {k: v for k, v in c.items() if k != "note"}
+            chk.count("corpus", "case")
+            run_case(chk, c)
     n = chk.scale(110 if chk.tier == "quick" else 400)
     for _ in range(n):
         run_case(chk, gen_case(chk.rng))
